@@ -198,7 +198,7 @@ def check(prop, tier, njobs=None, write_evidence=True, quiet=False, runs=None, m
             n_viol += 1
             lines.append(f"VIOLATION property={prop} replay={rec.get('replay')}")
             lines.append(f"  invariant={v['invariant_id']} signature={v['signature']} run={rec['r']} seed={seed}")
-    if write_evidence:
+    if write_evidence and not os.environ.get("VERIF_NO_EVIDENCE"):
         from sim import evidence
 
         evidence.write(mod, prop, tier, seed, records, errors, wall, n_viol, n_known)
